@@ -1,7 +1,7 @@
 #!/bin/bash
 # usage: tools/seedtest.sh <seed-dir> <property> [tier]   — apply a seeded change to /repo, run a check, undo.
 set -u
-d=$1; p=$2; tier=${3:-quick}
+d=$(readlink -f "$1"); p=$2; tier=${3:-quick}
 pf="$d/patch.diff"; [ -f "$d/patch.rebased.diff" ] && pf="$d/patch.rebased.diff"
 cd /repo && git apply "$pf" || { echo "PATCH DOES NOT APPLY"; git -C /repo reset -q --hard HEAD; exit 3; }
 cp /verif/evidence/$p.json /tmp/ev_$p.json 2>/dev/null
